@@ -99,11 +99,13 @@ func newRemainderExprNode() ExprNode { return &remainderExprNode{} }
 
 func (re *remainderExprNode) Run(ctx context.Context, currField string, tagExpr *TagExpr) interface{} {
 	v1, _ := toFloat64(re.rightOperand.Run(ctx, currField, tagExpr), true)
-	if v1 == 0 {
+	// the remainder is taken on integers: a divisor between -1 and 1 truncates to 0
+	d := int64(v1)
+	if d == 0 {
 		return math.NaN()
 	}
 	v0, _ := toFloat64(re.leftOperand.Run(ctx, currField, tagExpr), true)
-	return float64(int64(v0) % int64(v1))
+	return float64(int64(v0) % d)
 }
 
 type equalExprNode struct{ exprBackground }
